@@ -13,7 +13,13 @@ own action on basis vectors, <e x, y> == <x, e.T y> on the probe, e.T.T acts as 
 Expressions containing the iterative-solver InverseOperator are excluded from `.T` (unsupported by the
 library), as in harness/reduce_check.py; for them only the skeleton/structures of `.T` are compared.
 
-Two streams close blind spots found by seeded changes (see `cases`, `dtype_cases`):
+Three streams close blind spots found by seeded changes (see `cases`, `dtype_cases`, `self_cases`):
+* self-transposing stream: every class whose transpose() returns the operator itself (discovered on every run; a new one
+  without cases fails the run) over its whole parameter space - band Toeplitz with the four methods x explicit admissible
+  FFT sizes from the minimum 2K-1 x lengths around the multiples of the overlap-save step and below K, batched bands,
+  float64; diagonal operators over axes / pytrees and their inverses; identity, scalar, half-wave plate on every Stokes
+  type; user @symmetric classes; symmetric dense blocks.  Oracle: the matrix of mv on the basis vectors is symmetric and
+  the integer-probe adjoint identity holds (the cases are also compared with the model, whose leaf table is that matrix);
 * shortcut-sensitive chains: operands on which an algebraic shortcut of transpose() would be WRONG - all-symmetric
   chains that do not commute (band Toeplitz with K >= 2, diagonals with distinct entries, user @symmetric classes with
   a non-diagonal matrix, also next to the half-wave plate on Stokes pytrees) in every context, X @ X, palindromes
@@ -754,17 +760,321 @@ def oracle_dtype(case, obs):
     return None
 
 
+# ---------------------------------------------------------------------------------------------
+# self-transposing stream: classes whose transpose() returns the operator itself (decorators @symmetric / @diagonal of
+# core.py: IdentityOperator, HomothetyOperator, DiagonalOperator, DiagonalInverseOperator, HWPOperator,
+# SymmetricBandToeplitzOperator - discovered on every run, see `self_transposing_classes`).  For them "e.T is the exact
+# adjoint of e" is a statement about mv ALONE: the matrix that mv applies to the basis vectors must be symmetric for
+# EVERY parameterisation of the class.  The descriptions are carried by the case itself (the replay is self-contained):
+#   Toeplitz   K in 1..6 x the four methods x (overlap_save) explicit admissible FFT sizes - the minimum 2K-1, 2K, around
+#              3(K-1) where the step fft_size-2(K-1) crosses the half band width, half/once/twice the default - x lengths
+#              around the multiples of the step, around K and 2K-1, and below K (more bands than samples); batched and
+#              broadcast band values; float64 under x64;
+#   diagonal   1-d / 2-d values, axis_destination non-negative / negative / a tuple, pytrees with leaves of different
+#              rank, Stokes pytrees, zeros and negative entries, and their inverses (DiagonalInverseOperator);
+#   identity, scalar, half-wave plate on every Stokes type, user @symmetric classes; and symmetric dense einsum blocks
+#   (their transpose is a NEW operator with the same matrix).
+# The matrix is measured with ONE jax.jit of the operator's own mv applied to every basis vector (the eager overlap-save
+# loop would be re-traced for every column).
+
+TOEPLITZ_BANDS = {1: [3], 2: [3, 1], 3: [2, -1, 3], 4: [4, 3, 2, 1], 5: [1, 2, 0, -1, 2], 6: [6, 5, 4, 3, 2, 1]}
+NMAX = 16
+
+
+def toeplitz_fft_sizes(K):
+    """Explicit admissible FFT sizes of the overlap methods (fft_size >= 2K-1), None = the default."""
+    b = 2 * K - 1
+    default = int(2 ** (1 + np.ceil(np.log2(b))))
+    cand = {b, b + 1, 3 * (K - 1) - 1, 3 * (K - 1), 3 * (K - 1) + 1, b + K, default // 2, default, 2 * default}
+    return [None] + sorted(f for f in cand if f >= b)
+
+
+def toeplitz_lengths(K, f):
+    """Lengths around the multiples of the overlap-save step, around K / 2K-1 (band wider than the signal) and tiny."""
+    b = 2 * K - 1
+    s = (f if f is not None else int(2 ** (1 + np.ceil(np.log2(b))))) - 2 * (K - 1)
+    cand = {1, 2, 3, K - 1, K, K + 1, b - 1, b, b + 1, s - 1, s, s + 1, 2 * s - 1, 2 * s, 2 * s + 1, 3 * s, 3 * s + 1,
+            2 * (K - 1) + s, 2 * (K - 1) + 2 * s, 4 * s + 1, NMAX}
+    return sorted(n for n in cand if 1 <= n <= NMAX)
+
+
+def self_transposing_descriptions(quick, rng):
+    out = []
+    Ks = [1, 2, 3, 4, 6] if quick else [1, 2, 3, 4, 5, 6]
+
+    def band(K):
+        if quick or rng.random() < 0.5:
+            return list(TOEPLITZ_BANDS[K])
+        return [rng.randint(-3, 4) for _ in range(K - 1)] + [rng.choice([-2, -1, 1, 2, 3])]
+
+    for K in Ks:
+        for f in toeplitz_fft_sizes(K):
+            ns = toeplitz_lengths(K, f)
+            if quick:
+                small = [n for n in ns if n < K]
+                pick = {ns[-1], ns[len(ns) // 2]} | set(rng.sample(ns, min(2, len(ns)))) | set(small[-1:])
+                ns = sorted(pick)
+            for n in ns:
+                out.append({'k': 'toeplitz', 'band': band(K), 's': [n], 'method': 'overlap_save', 'fft_size': f})
+        for method in ('dense', 'direct', 'fft'):
+            ns = sorted({1, 2, 3, K - 1, K, K + 1, 2 * K - 1, 2 * K, 9, 12} - {0})
+            if quick:
+                ns = sorted({n for n in (K - 1, K, 2 * K + 1) if n >= 1} | {rng.choice(ns)})
+            for n in ns:
+                out.append({'k': 'toeplitz', 'band': band(K), 's': [n], 'method': method})
+    # batched / broadcast band values (the operator is block diagonal), every method, smallest and default FFT sizes
+    for bandv, s in (([[2, -1, 3], [1, 2, 1]], [2, 7]), ([2, -1, 3], [3, 5]), ([[[2, 1, 1]], [[1, 0, -2]]], [2, 2, 6]),
+                     ([[4, 3, 2, 1], [1, -1, 2, 3]], [2, 3])):
+        K = np.array(bandv).shape[-1]
+        for method, f in (('dense', None), ('direct', None), ('fft', None), ('overlap_save', None), ('overlap_save', 2 * K - 1), ('overlap_save', 2 * K)):
+            d = {'k': 'toeplitz', 'band': bandv, 's': s, 'method': method}
+            if method == 'overlap_save':
+                d['fft_size'] = f
+            out.append(d)
+    # float64 parameters and structures (jax.enable_x64)
+    for method, f, n in (('dense', None, 5), ('direct', None, 3), ('fft', None, 10), ('overlap_save', None, 10), ('overlap_save', 7, 10),
+                         ('overlap_save', 8, 11), ('overlap_save', 9, 13)):
+        d = {'k': 'toeplitz', 'band': [4, 3, 2, 1], 's': [n], 'method': method, 'dt': 'float64'}
+        if method == 'overlap_save':
+            d['fft_size'] = f
+        out.append(d)
+    # diagonal operators and their inverses
+    diags = [
+        {'v': [1, 2, -4], 's': [3]},
+        {'v': [2, 0, -1, 3], 's': [4], 'axis': -1},
+        {'v': [1, 2, 4], 'axis': 1, 's': [2, 3]},
+        {'v': [2, -1], 'axis': 0, 's': [2, 3]},
+        {'v': [2, -1], 'axis': -2, 's': [2, 3]},
+        {'v': [[1, 2, 4], [-1, 2, 8]], 'axis': 0, 's': [2, 3]},
+        {'v': [[1, 2, 4], [-1, 2, 8]], 'axis': -1, 's': [2, 3]},
+        {'v': [[1, 2], [4, -1], [2, 8]], 'axis': [1, 0], 's': [2, 3]},
+        {'v': [[1, 2], [4, -1], [2, 8]], 'axis': [-1, -2], 's': [2, 3]},
+        {'v': [[1, 2], [4, -2]], 'axis': [0, 2], 's': [2, 3, 2]},
+        {'v': [2, -1], 'axis': 0, 's': {'tuple': [[2], [2, 2]]}},
+        {'v': [1, 4], 'axis': 0, 's': {'dict': {'tod': [2, 3], 'ground': [2]}}},
+        {'v': [1, -2, 4], 'axis': -1, 's': {'list': [[3], [2, 3], [1, 1, 3]]}},
+        {'v': [1, 2], 'axis': 0, 's': {'stokes': 'IQU', 'shape': [2]}},
+        {'v': [[1, 2, 4], [2, -1, 1]], 'axis': 0, 's': {'stokes': 'QU', 'shape': [2, 3]}},
+        {'v': [1, 2, -1], 'axis': -1, 's': {'stokes': 'IQUV', 'shape': [1, 3]}},
+        {'v': [1, 2, -4], 's': [3], 'dt': 'float64'},
+    ]
+    for d in diags:
+        out.append({'k': 'diag', **d})
+        if all(x != 0 for x in np.array(d['v']).ravel()):
+            out.append({'k': 'diag', **d, 'inv': True})
+    structs = [[3], [2, 2], {'dict': {'a': [2], 'b': [1, 2]}}, {'tuple': [[2], [[1], [2, 1]]]}, {'stokes': 'IQUV', 'shape': [2]}]
+    for s in structs:
+        out.append({'k': 'ident', 's': s})
+        out.append({'k': 'homoth', 'v': rng.choice([-2, 3, 0.5]), 's': s})
+    for st in ('I', 'QU', 'IQU', 'IQUV'):
+        for shape in ([2], [1, 2], []):
+            out.append({'k': 'hwp', 'stokes': st, 'shape': shape})
+    out.append({'k': 'user', 'sym': True, 'm': [[1, 2, 0], [2, -1, 3], [0, 3, 2]], 's': {'tuple': [[1], [2]]}})
+    out.append({'k': 'user', 'sym': True, 'm': [[0, 1], [1, 0]], 's': [2]})
+    # symmetric dense blocks (einsum operator: the transpose is a new operator with the same matrix)
+    out.append({'k': 'einsum', 'b': [[1, 2, 0], [2, -1, 3], [0, 3, 2]], 's': [3], 'sub': 'ij,j->i'})
+    out.append({'k': 'einsum', 'b': [[[1, 2], [2, 3]], [[0, -1], [-1, 4]]], 's': [2, 2], 'sub': 'hij,hj->hi'})
+    out.append({'k': 'einsum', 'b': [[2, 1], [1, 3]], 's': [2, 3], 'sub': None})
+    return out
+
+
+def self_context(d):
+    import contextlib
+
+    return A.J()['jax'].enable_x64(True) if d.get('dt') == 'float64' else contextlib.nullcontext()
+
+
+def build_self(d):
+    """Operator of a self-transposing description (to be called inside self_context(d))."""
+    j = A.J()
+    jax, jnp = j['jax'], j['jnp']
+    k, dt = d['k'], d.get('dt', 'float32')
+    if k == 'toeplitz':
+        kw = {'method': d['method']}
+        if d.get('fft_size') is not None:
+            kw['fft_size'] = d['fft_size']
+        return j['toeplitz'].SymmetricBandToeplitzOperator(
+            jnp.asarray(np.array(d['band'], dtype=dt)), jax.ShapeDtypeStruct(tuple(d['s']), np.dtype(dt)), **kw)
+    if k == 'diag':
+        axis = d.get('axis', 0)
+        op = j['diagonal'].DiagonalOperator(
+            jnp.asarray(np.array(d['v'], dtype=dt)), axis_destination=axis if isinstance(axis, int) else tuple(axis), in_structure=struct_dt(d['s'], dt))
+        return op.inverse() if d.get('inv') else op
+    return build_operand(d, {})
+
+
+def measure(op):
+    """Matrix of the operator: its own mv (one jax.jit) applied to every basis vector of the flattened input space."""
+    f = A.J()['jax'].jit(lambda x: op.mv(x))  # (a bound method of an equinox module is not hashable)
+    cols = [A.flat(f(x)) for x in A.basis_inputs(op.in_structure())]
+    if not cols:
+        return np.zeros((A.struct_size(op.out_structure()), 0)), f
+    return np.stack(cols, axis=1), f
+
+
+def returns_self(cls) -> bool:
+    """transpose() of the class is `return self` (the lambda installed by core.symmetric or a hand-written one)."""
+    code = getattr(getattr(cls, 'transpose', None), '__code__', None)
+    return code is not None and code.co_argcount == 1 and code.co_code == (lambda self: self).__code__.co_code
+
+
+def self_transposing_classes():
+    """Concrete operator classes of the furax package whose transpose() returns the operator itself or that are tagged
+    symmetric for lineax (every module of the package that can be imported is imported first)."""
+    import importlib
+    import inspect
+    import pkgutil
+
+    import furax
+    import lineax as lx
+
+    for m in pkgutil.walk_packages(furax.__path__, 'furax.'):
+        try:
+            importlib.import_module(m.name)
+        except Exception:
+            pass
+    seen: set = set()
+
+    def walk(c):
+        for s in c.__subclasses__():
+            if s not in seen:
+                seen.add(s)
+                walk(s)
+
+    walk(A.J()['core'].AbstractLinearOperator)
+    found = []
+    for c in seen:
+        if not (c.__module__ or '').startswith('furax.') or inspect.isabstract(c) or c.__name__.startswith('Abstract'):
+            continue
+        tagged = False
+        try:
+            tagged = 'True' in inspect.getsource(lx.is_symmetric.dispatch(c))
+        except Exception:
+            pass
+        if returns_self(c) or tagged:
+            found.append(c.__name__)
+    return sorted(found)
+
+
+def observe_self(case):
+    """Same observation as Check.run_impl for a single operand, from ONE jitted measurement per distinct object."""
+    import random
+
+    import lineax as lx
+
+    d = case['d']
+    with self_context(d):
+        e = build_self(d)
+        enc = A.Encoder()
+        i = enc.oid(e)
+        obs = {'cls': type(e).__name__, 'in': A.struct_repr(e.in_structure()), 'out': A.struct_repr(e.out_structure())}
+        try:
+            obs['tagged_symmetric'] = bool(lx.is_symmetric(e))
+        except Exception:
+            obs['tagged_symmetric'] = None
+        done: list = []  # (object, matrix, jitted mv)
+
+        def mat_of(op):
+            for o, m, f in done:
+                if o is op:
+                    return m, f
+            m, f = measure(op)
+            done.append((op, m, f))
+            return m, f
+
+        def with_matrix(o, op):
+            try:
+                o['mat'] = A.mat_json(A.frac_matrix(mat_of(op)[0]))
+            except Exception as ex:
+                o['mat'] = None
+                o['mat_error'] = f'{type(ex).__name__}: {str(ex)[:200]}'
+
+        with_matrix(obs, e)
+        if obs['mat'] is not None:
+            enc.table[2 * i] = A.frac_matrix(done[0][1])  # the model's table of the leaf: the same measurement
+        try:
+            term = enc.term(e)
+        except Exception as ex:  # (the encoder measures operands of wrappers itself: an mv that raises ends up here)
+            term = None
+            enc.unsupported = f'operator cannot be encoded: {type(ex).__name__}'
+        if obs['mat'] is None:
+            enc.unsupported = 'mv cannot be applied to the basis vectors'
+        if type(e).__name__ == 'DenseBlockDiagonalOperator':
+            try:
+                enc.table[2 * i + 1] = A.frac_matrix(mat_of(e.T)[0])
+            except Exception:
+                pass
+        if type(e).__name__ == 'SymAtom':
+            enc.unsupported = 'user-defined @symmetric class'
+        if d.get('dt') == 'float64':
+            enc.unsupported = 'float64 structures (x64): implementation-side oracle only'
+        oT = A.observe_impl(lambda: e.T, enc, want_matrix=False)
+        eT = oT.pop('_op', None)
+        obs['T'] = oT
+        if eT is not None:
+            obs['T_is_e'] = eT is e
+            with_matrix(oT, eT)
+            oTT = A.observe_impl(lambda: eT.T, enc, want_matrix=False)
+            eTT = oTT.pop('_op', None)
+            if eTT is not None:
+                with_matrix(oTT, eTT)
+            obs['TT'] = oTT
+            obs['TT_is_e'] = oTT.get('skel', [None, 0])[1] != 0 and oTT['skel'][1] == enc.known(e)
+            rng = random.Random(case['seed'])
+            x = probe_values(e.in_structure(), rng)
+            y = probe_values(e.out_structure(), rng)
+            try:
+                fe, fT = mat_of(e)[1], mat_of(eT)[1]
+                obs['probe'] = [A.frac_json(A.to_frac(inner(fe(x), y))), A.frac_json(A.to_frac(inner(x, fT(y))))]
+            except Exception as ex:
+                obs['probe'] = None
+                obs['probe_error'] = f'{type(ex).__name__}: {str(ex)[:200]}'
+            case['_x'] = value_coq(x)
+            case['_y'] = value_coq(y)
+        if term is not None:
+            case['_term'] = term
+        case['_table'] = enc.table_coq()
+        case['_ptable'] = clist([], str)
+        case['_unsupported'] = enc.unsupported
+    return obs
+
+
+def asymmetry(mat):
+    """First pair of entries M[i][j] != M[j][i] of a JSON matrix (None if it is symmetric / not square)."""
+    from fractions import Fraction
+
+    n = len(mat)
+    if any(len(r) != n for r in mat):
+        return None
+    for i in range(n):
+        for jj in range(i + 1, n):
+            a, b = float(Fraction(mat[i][jj])), float(Fraction(mat[jj][i]))
+            if abs(a - b) > 1e-4 * max(1.0, abs(a), abs(b)):
+                return i, jj, mat[i][jj], mat[jj][i]
+    return None
+
+
+# the decidable hypotheses of Props/C03Mat.v harness_transpose_matrix / harness_transpose_involutive_matrix /
+# harness_transpose_observe, as terms over the let-bound tb, pt, e of `model_term`
+HYP_NAMES = ['wfo e', 'sym_square e', 'table_okb tb e', 'ptable_okb pt e', 'transposeT_okb tb pt e', 'transposeT_okb tb pt (x_transpose e)']
+HYP_TERMS = list(HYP_NAMES)
+
+
 class Check(PropertyCheck):
     id = 'C03'
-    props = ['C03.v']
-    static_targets = ['theories/Model/Exec.vo', 'theories/Lemmas/TransposeExecL.vo']
-    coq_header = A.COQ_HEADER + 'From Furax Require Import Model.Wf Model.Adjoint.\n'
+    props = ['C03.v', 'C03Mat.v']
+    static_targets = ['theories/Model/Exec.vo', 'theories/Lemmas/TransposeExecL.vo', 'theories/Lemmas/ExecFactsL.vo',
+                      'theories/Lemmas/TransposeMatL.vo']
+    coq_header = A.COQ_HEADER + 'From Furax Require Import Model.Wf Model.Adjoint Lemmas.ExecFactsL Lemmas.TransposeMatL.\n'
     shard = 60
     workers = 8
     partial = (
-        'the matrix form "mat(e.T) = mat(e)^T" of the property is not a separate theorem: it is transpose_adjoint at the basis vectors '
-        '(it needs totality of the denotation on inputs of the declared structure, which is not proved for abstract leaves); it is checked '
-        'by the oracle on every case.  transpose_involutive is proved for wrappers as `.T` creates them (guard `canonical`) under the named '
+        'the matrix form "mat(e.T) = mat(e)^T" is a theorem for the executable semantics that the harness runs (Props/C03Mat.v '
+        'harness_transpose_matrix / harness_transpose_involutive_matrix / harness_transpose_observe, for an arbitrary table of measured '
+        'matrices) under decidable hypotheses - wfo, sym_square, table_okb, ptable_okb, transposeT_okb of e and of e.T - that are evaluated '
+        'by vm_compute on every model-compared case (a false one is reported as a disagreement with the concrete case); for ABSTRACT leaf '
+        'semantics it remains transpose_adjoint at the basis vectors (totality of the denotation on inputs of the declared structure is not '
+        'proved for abstract leaves); the oracle checks it on every case.  transpose_involutive is proved for wrappers as `.T` creates them (guard `canonical`) under the named '
         'assumption that re-created objects act through their data (`oid_facts`); for the generic lazy TransposeOperator of opaque operators '
         'adjointness is the trusted behaviour of jax.linear_transpose (`af_linear_transpose`), validated numerically here'
     )
@@ -790,6 +1100,11 @@ class Check(PropertyCheck):
         'structures are not generated: their transpose is declared on complex structures (dtype promotion), so the structures are '
         'not exactly swapped; complex band values with the FFT-based Toeplitz methods are not generated either (the real FFT drops '
         'the imaginary part already in mv: not a statement about .T)',
+        'self-transposing stream: the matrix of an operator is measured with one jax.jit of its own mv applied to every basis vector '
+        '(the eager overlap-save loop is re-traced per call); that matrix is also the leaf table handed to the model, so for a class '
+        'returning itself the model comparison ties transpose() (skeleton, structures, identity of e.T and e.T.T) while the symmetry '
+        'of mv itself is established by the implementation-side oracle only; whether mv is the RIGHT symmetric matrix (the band '
+        'Toeplitz kernels) is C09; float64 (x64) and user @symmetric cases of the stream are implementation-side only',
     ]
 
     # -- cases ---------------------------------------------------------------------------------
@@ -943,7 +1258,23 @@ class Check(PropertyCheck):
                         add([a], ctx, [b])
                         k += 1
         self.dtype_cases(out, quick, rng)
+        self.self_cases(out, quick, rng)
         return out
+
+    def self_cases(self, out, quick, rng):
+        """The self-transposing stream (see `self_transposing_descriptions`): one case per description."""
+        seen = set()
+        classes: dict = {}
+        for d in self_transposing_descriptions(quick, rng):
+            k = json.dumps(d, sort_keys=True)
+            if k in seen:
+                continue
+            seen.add(k)
+            out.append({'kind': 'selfT', 'd': d, 'seed': rng.randrange(10**6)})
+            key = d['k'] + ('/' + d['method'] + ('' if d.get('fft_size') is None else '/explicit-fft-size') if d['k'] == 'toeplitz' else '') + ('/inverse' if d.get('inv') else '')
+            classes[key] = classes.get(key, 0) + 1
+        self.stats['self_transposing_stream'] = classes
+        self._self_descs = [c['d'] for c in out if c['kind'] == 'selfT']
 
     def dtype_cases(self, out, quick, rng):
         """The dtype stream (see CX): every operand, type-compatible chains of 2-3 operands in rotating contexts, and
@@ -1026,7 +1357,17 @@ class Check(PropertyCheck):
         d = (self.stats.get('dtype_stream') or {}).get('complex64') or {}
         if a.get('len2_noncommuting', 0) < 20 or a.get('len3_not_symmetric', 0) < 45 or d.get('all_symmetric_noncommuting_pairs', 0) < 8:
             raise RuntimeError(f'the alphabet lost its non-commuting all-symmetric chains: {a} {d}')
-        return {}
+        # every class of the package whose transpose() returns the operator itself (or that is tagged symmetric) must be
+        # exercised by the self-transposing stream: a new such class without descriptions fails the run
+        found = self_transposing_classes()
+        covered = set()
+        for dd in getattr(self, '_self_descs', []):
+            with self_context(dd):
+                covered.add(type(build_self(dd)).__name__)
+        missing = [c for c in found if c not in covered]
+        if missing or len(found) < 6:
+            raise RuntimeError(f'self-transposing classes of the package {found}; without a case in the self-transposing stream: {missing}')
+        return {'self_transposing_classes': found}
 
     def distribution(self, cases):
         d = {}
@@ -1034,6 +1375,8 @@ class Check(PropertyCheck):
             k = c['kind'] + ('/' + c['ctx'] + f"/len{len(c['ops'])}" if c['kind'] == 'composite' else '')
             if c['kind'] == 'dtype':
                 k = f"dtype/{c['dt']}/" + ('operand' if c['ctx'] == 'operand' else f"{c['ctx']}/len{len(c['ops'])}")
+            if c['kind'] == 'selfT':
+                k = 'selfT/' + c['d']['k'] + ('/' + c['d']['method'] if c['d']['k'] == 'toeplitz' else '')
             d[k] = d.get(k, 0) + 1
         return d
 
@@ -1050,7 +1393,13 @@ class Check(PropertyCheck):
             'sums and blocks mixing tagged-symmetric and other operands; and a dtype stream (implementation-side oracle only) of 56 '
             'operands with complex64 / complex128 / float64 (x64) parameters and structures (einsum blocks incl. pytrees of blocks, '
             'diagonal and broadcast-diagonal values, scalars, Toeplitz bands, user matrices, index/axes/polarimetry operators on '
-            'complex inputs), their chains and containers, compared as the PLAIN transpose on Gaussian-integer values.  '
+            'complex inputs), their chains and containers, compared as the PLAIN transpose on Gaussian-integer values; and a '
+            'self-transposing stream (~300 cases in quick) over the parameter space of every class whose transpose() returns the '
+            'operator itself: band Toeplitz K=1..6 x dense/direct/fft/overlap_save x explicit FFT sizes (2K-1, 2K, around 3(K-1), '
+            'half/once/twice the default) x lengths around the multiples of the step, around K and 2K-1 and below K, batched/broadcast '
+            'bands, float64; diagonal operators (1-d/2-d values, non-negative/negative/tuple axes, pytrees, Stokes) and their inverses; '
+            'identity, scalar, half-wave plate on I/QU/IQU/IQUV; user @symmetric classes; symmetric einsum blocks - oracle: the matrix '
+            'of mv on the basis vectors is symmetric.  '
             'Non-trivial: e.T is not the default lazy wrapper.'
         )
 
@@ -1060,6 +1409,8 @@ class Check(PropertyCheck):
 
         if case['kind'] == 'dtype':
             return observe_dtype(case)
+        if case['kind'] == 'selfT':
+            return observe_self(case)
         e_env = env()
         e = build_expr(case, e_env)  # the generator only emits well-typed expressions: a failure here is reported
         enc = A.Encoder()
@@ -1136,18 +1487,23 @@ class Check(PropertyCheck):
             return f'(wfo {tm}, no_inverse {tm}, observeT [] [] (x_transpose {tm}))'
         if '_x' not in case:
             return None
-        return f'observe_transpose {tb} {pt} {tm} {case["_x"]} {case["_y"]}'
+        # ... together with the decidable HYPOTHESES of the matrix-form theorems of Props/C03Mat.v (harness_transpose_matrix,
+        # harness_transpose_involutive_matrix, harness_transpose_observe), evaluated on this very expression and tables
+        hyps = '; '.join(f'{h}' for h in HYP_TERMS)
+        return (f'(let tb : table := {tb} in let pt : ptable := {pt} in let e : xop := {tm} in '
+                f'(observe_transpose tb pt e {case["_x"]} {case["_y"]}, [{hyps}]))')
 
     def decode(self, case, v):
         if case['kind'] == 'inverse-skeleton':
             wf, guard, o = v
             d = A.decode_observation(o)
             return {'wf': wf, 'guard': guard, 'T': {k: d[k] for k in ('skel', 'in', 'out')}}
-        wf, guard, sq, oT, oTT, probe = v
+        wf, guard, sq, oT, oTT, probe, hyps = v
         pr = None
         if probe[0] is not None and probe[1] is not None:
             pr = [A.frac_json(_frac(probe[0])), A.frac_json(_frac(probe[1]))]
-        return {'wf': wf, 'guard': guard, 'T': A.decode_observation(oT), 'TT': A.decode_observation(oTT), 'probe': pr}
+        return {'wf': wf, 'guard': guard, 'T': A.decode_observation(oT), 'TT': A.decode_observation(oTT), 'probe': pr,
+                'C03Mat_hypotheses': dict(zip(HYP_NAMES, hyps))}
 
     def comparable(self, case, obs):
         if not isinstance(obs, dict) or 'T' not in obs:
@@ -1160,7 +1516,9 @@ class Check(PropertyCheck):
 
         if case['kind'] == 'inverse-skeleton':
             return {'wf': True, 'guard': False, 'T': part(obs['T'], ('skel', 'in', 'out'))}
-        return {'wf': True, 'guard': True, 'T': part(obs['T']), 'TT': part(obs.get('TT', {})), 'probe': obs.get('probe')}
+        # (the hypotheses of the matrix-form theorems are expected to hold on every real case: a false one is a disagreement)
+        return {'wf': True, 'guard': True, 'T': part(obs['T']), 'TT': part(obs.get('TT', {})), 'probe': obs.get('probe'),
+                'C03Mat_hypotheses': {h: True for h in HYP_NAMES}}
 
     def nontrivial(self, case, obs):
         if not isinstance(obs, dict) or 'T' not in obs:
@@ -1229,6 +1587,13 @@ class Check(PropertyCheck):
         if oT.get('mat') is None:
             return f'e.T cannot be applied: {oT.get("mat_error")}'
         want = [list(r) for r in zip(*obs['mat'])] if obs['mat'] and obs['mat'][0] else oT['mat']
+        if case['kind'] == 'selfT' and obs.get('T_is_e'):
+            # the class returns the operator itself as its transpose: the matrix applied by mv must be symmetric
+            asym = asymmetry(obs['mat'])
+            if asym is not None:
+                i, jj, a, b = asym
+                return (f'{obs.get("cls")} returns itself as its transpose (e.T is e) but the matrix that its mv applies to the basis vectors '
+                        f'is not symmetric: M[{i}][{jj}] = {a}, M[{jj}][{i}] = {b}; description {json.dumps(case["d"])}; M = {obs["mat"]}')
         if not A.mat_close(oT['mat'], want):
             return f'dense matrix of e.T {oT["mat"]} is not the transpose of the dense matrix of e {obs["mat"]}'
         pr = obs.get('probe')
